@@ -570,7 +570,10 @@ type outputBuffer struct {
 func (w *outputBuffer) emitEligibleFrames(output chan queuedFrame, done <-chan struct{}, connectionWindowSize *int) {
 	for e := w.queue.Front(); e != nil; {
 		f := e.Value.(queuedFrame)
-		if f.flowControlSize() > *connectionWindowSize || f.flowControlSize() > w.windowSize {
+		// Only frames that consume window wait for it. A window may be negative (the receiver lowered
+		// SETTINGS_INITIAL_WINDOW_SIZE, RFC 7540 6.9.2); frames without a flow-controlled payload
+		// (HEADERS, PRIORITY, RST_STREAM, PUSH_PROMISE, empty DATA) are still sent then.
+		if size := f.flowControlSize(); size > 0 && (size > *connectionWindowSize || size > w.windowSize) {
 			break
 		}
 		select {
